@@ -47,11 +47,13 @@ def input_for(mname, model, which=0):
     return f"{node_op}/{iv}", arr
 
 
+SAME = {}       # model name -> the template object a history operation worked on in place (route "same_object")
+
 OPS = ["compile", "compile_vec", "compile_noclear", "run", "run_noclear", "jacobian", "yaml", "update_var", "clear", "clear_frontend",
-       "yaml_update_run_clear", "compile_inputs_noclear", "compile_decorator", "update_var_shared", "run_user_ops", "yaml_edge_update_clear"]
+       "yaml_update_run_clear", "compile_inputs_noclear", "compile_decorator", "update_var_shared", "run_user_ops", "yaml_edge_update_clear", "yaml_derive_edge_update", "run_inplace_keep"]
 UNCLEARED = ("compile_noclear", "run_noclear", "compile_inputs_noclear")
 CLEARING = ("compile", "compile_vec", "run", "jacobian", "yaml", "update_var", "update_var_shared", "clear", "yaml_update_run_clear",
-            "compile_decorator", "run_user_ops", "yaml_edge_update_clear")
+            "compile_decorator", "run_user_ops", "yaml_edge_update_clear", "yaml_derive_edge_update", "run_inplace_keep")
 
 
 def negate(f):
@@ -124,6 +126,24 @@ def do_op(op, mname, model, keep):
         tpl.run(simulation_time=0.2, step_size=0.05, solver="euler", outputs={"o": mdl.state_vars(model)[0]}, vectorize=True, verbose=False, clear=True,
                 in_place=True, float_precision="float64")
         clear(tpl)
+    elif op == "yaml_derive_edge_update":
+        # load from YAML, DERIVE a circuit with one more edge (update_template), change an inherited edge on the derived circuit, run it
+        # (clear=True): the loaded base (also the copy the loader keeps for later loads of the same path) is unaffected
+        path = mdl.write_yaml(model, path=f"y_{mname[0]}/m.yaml")
+        base = CircuitTemplate.from_yaml(path)
+        edges = base.edges
+        if edges:
+            src, tgt = edges[0][0], edges[0][1]
+            derived = base.update_template(name="derived_" + mname[0], edges=[(edges[-1][0], tgt, None, {"weight": 0.123})])
+            derived.update_var(edge_vars=[(src, tgt, {"weight": 10.0})])
+            derived.run(simulation_time=0.2, step_size=0.05, solver="euler", outputs={"o": mdl.state_vars(model)[0]}, vectorize=True, verbose=False,
+                        clear=True, in_place=True, float_precision="float64")      # (run's own clear=True; the loader's cache is kept on purpose)
+    elif op == "run_inplace_keep":
+        # an in-place simulation (default clear=True) on a template object that is used again afterwards
+        tpl = SAME.get(mname) or mdl.build_templates(model)
+        SAME[mname] = tpl
+        tpl.run(simulation_time=0.3, step_size=0.05, solver="euler", outputs={"o": mdl.state_vars(model)[0]}, vectorize=False, verbose=False,
+                clear=True, in_place=True, float_precision="float64")
     elif op == "compile_inputs_noclear":
         tpl = mdl.build_templates(model)
         ipath, arr = input_for(mname, model, which=1)
@@ -158,6 +178,8 @@ def case_fn(c):
             inputs = {ipath: arr}
         if route == "shared":
             tpl = build_shared(c["target"], target)
+        if route == "same_object":
+            tpl = SAME.get(c["target"])
         comp = oracle.compile_model(target, vectorize=c["vec"], file_name="shared_name", tpl=tpl, inputs=inputs)
     except Exception as exn:
         return dict(status="violated", fails=[dict(clause="get_run_func of the target model after the history succeeds",
@@ -237,6 +259,13 @@ def families(tier, seed):
         if m[0] in "ABCDE":
             out.append(dict(tag=f"T-yaml-edge-{m[0]}", features=features_of([("yaml_edge_update_clear", m)], m), history=[("yaml_edge_update_clear", m)],
                             target=m, vec=False, seed=seed, route="yaml"))
+        if m[0] in "ABCDE":
+            out.append(dict(tag=f"T-yaml-derive-edge-{m[0]}", features=features_of([("yaml_derive_edge_update", m)], m),
+                            history=[("yaml_derive_edge_update", m)], target=m, vec=False, seed=seed, route="yaml"))
+        for reps in (1, 2):
+            h = [("run_inplace_keep", m)] * reps
+            out.append(dict(tag=f"T-same-object-after-{reps}-runs-{m[0]}", features=features_of(h, m), history=h, target=m, vec=False, seed=seed,
+                            route="same_object"))
         out.append(dict(tag=f"T-yaml-{m[0]}", features=features_of([("yaml_update_run_clear", m)], m), history=[("yaml_update_run_clear", m)],
                         target=m, vec=False, seed=seed, route="yaml"))
         out.append(dict(tag=f"T-decorator-{m[0]}", features=features_of([("compile_decorator", m)], m), history=[("compile_decorator", m)],
